@@ -251,6 +251,34 @@ def littwin_rule(ctx):
                '' if ok else 'a %s written inline is rendered as %s, the same value bound as a parameter (and stored) as %s: SQLite compares them as text, so '
                '`attr == <literal>` misses the row that `attr == <parameter>` finds' % (typ, lit, par), node=rets[0], expected=par)
     ctx.floor('C06-LITTWIN', n, 2, 'text-compared types')
+    # intervals are stored as a number of days (REAL); the inline literal and the bound parameter are two renderings of the same timedelta and each
+    # must take all of it: days, seconds and microseconds (or total_seconds()).  A rendering that leaves a component out denotes another value.
+    FIELDS = {'days', 'seconds', 'microseconds'}
+    def td_fields(root, var):
+        got = set()
+        for x in ast.walk(root):
+            if isinstance(x, ast.Attribute) and dotted(x.value) == var and x.attr in FIELDS: got.add(x.attr)
+            if isinstance(x, ast.Call) and isinstance(x.func, ast.Attribute) and x.func.attr == 'total_seconds' and dotted(x.func.value) == var: got |= FIELDS
+            if isinstance(x, ast.Name) and x.id == var and isinstance(x.ctx, ast.Load):
+                pass
+        # the whole value handed on (str(value), repr(value), value / other) keeps everything
+        for x in ast.walk(root):
+            if isinstance(x, ast.BinOp) and (dotted(x.left) == var or dotted(x.right) == var): got |= FIELDS
+            if isinstance(x, ast.Call) and any(dotted(a) == var for a in x.args) and dotted(x.func) not in ('isinstance', 'type'): got |= FIELDS
+        return got
+    tb = [st for st in walk_no_nested(f.node) if isinstance(st, ast.If) and isinstance(st.test, ast.Call) and dotted(st.test.func) == 'isinstance'
+          and len(st.test.args) == 2 and dotted(st.test.args[1]) == 'datetime.timedelta']
+    ctx.need(len(tb) == 1, 'C06-LITTWIN: branch for datetime.timedelta not found in SQLiteValue.__str__')
+    var = norm(tb[0].test.args[0])
+    holder = ast.Module(body=tb[0].body, type_ignores=[])
+    miss = sorted(FIELDS - td_fields(holder, var))
+    ctx.ob('C06-LITTWIN.interval-literal-takes-the-whole-timedelta', f, tb[0], not miss,
+           '' if not miss else 'an inline timedelta is rendered without its %s: the literal denotes a different interval than the value (and than the same value bound as a parameter)' % ', '.join(miss),
+           node=tb[0])
+    p2 = repo.fn(SQ, 'SQLiteTimedeltaConverter.py2sql')
+    miss = sorted(FIELDS - td_fields(p2.node, p2.params[1]))
+    ctx.ob('C06-LITTWIN.interval-parameter-takes-the-whole-timedelta', p2, p2.node, not miss,
+           '' if not miss else 'a timedelta bound as a parameter is converted without its %s' % ', '.join(miss))
 
 
 def bodies(node):
@@ -426,6 +454,7 @@ def delegated(x, pm, f):
 
 
 MUTANTS = [
+    dict(id='C06-td', file='pony/orm/dbproviders/sqlite.py', fn='SQLiteTimedeltaConverter.py2sql', old="        return val.days + (val.seconds + val.microseconds / 1000000.0) / 86400.0", new="        return val.days + val.seconds / 86400.0", expect='C06-LITTWIN.interval-parameter'),
     dict(id='C06-q1', file='pony/orm/dbapiprovider.py', fn='DBAPIProvider.quote_name', old="            return quote_char + name + quote_char\n        return '.'.join(provider.quote_name(item) for item in name)", new="        else:\n            name = (quote_char + '.' + quote_char).join(name)\n        return quote_char + name + quote_char", expect='C06-IDENT.quote_name-doubles-on-every-path'),
     dict(id='C06-lt1', file='pony/orm/dbproviders/sqlite.py', fn='SQLiteValue.__str__', old="return self.quote_str(datetime2timestamp(value))", new="return self.quote_str(value.isoformat(' '))", expect='C06-LITTWIN'),
     dict(id='C06-lt2', file='pony/orm/dbproviders/sqlite.py', fn='SQLiteValue.__str__', old="return self.quote_str(str(value))", new="return self.quote_str(value.isoformat())", benign=True),
